@@ -44,6 +44,7 @@ def finish(ok, nontrivial, shape=None):
     if nontrivial:
         STATS["nontrivial"] += 1
     if shape is not None:
+        shape = conc(shape)
         with _no_tracing():
             key = _concrete_repr(shape)
             if key is None:
@@ -63,6 +64,18 @@ def _no_tracing():
         import contextlib
 
         return contextlib.nullcontext()
+
+
+def conc(x):
+    """Realize a (path-decided, bounded) symbolic value; identity when run natively."""
+    try:
+        from crosshair.core import deep_realize
+        from crosshair.tracers import is_tracing
+    except ImportError:
+        return x
+    if not is_tracing():
+        return x
+    return deep_realize(x)
 
 
 _PLAIN = (int, bool, str, float, type(None))
